@@ -1,0 +1,21 @@
+//go:build verif
+
+// Contracts for package http, checked by /verif/govc (see /verif/DESIGN.md).
+// This file contains only comments: it adds no code to any build.
+
+package http
+
+// fileParms resolves a path to exactly the file of that path: the first entry
+// of the table whose path equals pth component-wise (the single file of a
+// single-file torrent is named by the torrent's name), and to nothing else.
+//@ func fileParms
+//@   requires t != nil
+//@   ensures  [single]  err == nil && t.Files == nil ==> len(pth) == 1 && pth[0] == t.Name && offset == 0 && length == t.Pieces.Length()
+//@   ensures  [found]   err == nil && t.Files != nil ==> 0 < $i(1) && $i(1) <= len(t.Files) && path.PathEq(pth, t.Files[$i(1)-1].Path) && offset == t.Files[$i(1)-1].Offset && length == t.Files[$i(1)-1].Length
+//@   ensures  [first]   err == nil && t.Files != nil ==> forall j int :: 0 <= j && j < $i(1)-1 ==> !path.PathEq(pth, t.Files[j].Path)
+//@   ensures  [absent]  err != nil && t.Files != nil ==> forall j int :: 0 <= j && j < len(t.Files) ==> !path.PathEq(pth, t.Files[j].Path)
+//@   ensures  [absent1] err != nil && t.Files == nil ==> !(len(pth) == 1 && pth[0] == t.Name)
+//@   loop 1
+//@     invariant file == nil
+//@     invariant forall j int :: 0 <= j && j < $i ==> !path.PathEq(pth, t.Files[j].Path)
+//@   props    C20 C02
